@@ -11,7 +11,7 @@
    the undefined-function outcomes are covered exactly by evalL/runL, S with the lookup time of an undefined
    operator (left open by CLHS 3.1.2.1.2.3) as a parameter - section (9b). *)
 From Coq Require Import List ZArith String Permutation.
-From C08 Require Import Model Spec Proofs ProofsLate ProofsProgram.
+From C08 Require Import Model Spec Proofs ProofsLate ProofsProgram ProofsFmak.
 Import ListNotations.
 Open Scope list_scope.
 
@@ -102,7 +102,8 @@ Print Assumptions C08_order_independent.
 (* (8) Histories: EVERY sequence of {read a code object, Code.Compile it, evaluate it} - any definitions and
    redefinitions, any bodies, in any order - gives, evaluation by evaluation, S's outcome (equal where S is
    binding; never a value where S has none), from the empty state.  No guard: this is the statement that was
-   refuted for the unrepaired code (C08_refinement_needs_guard_refuted, removed with repo_fixes/C08-3). *)
+   refuted for the unrepaired code (C08_refinement_needs_guard_refuted, removed with repo_fixes/C08-3).
+   Subsumed by (12) C08_history_refines_fmak, which has no `no_fmak` hypothesis. *)
 Theorem C08_history_refines : forall n ops, no_fmak ops = true -> Forall2 osim (runS n sinit ops) (runM n minit ops).
 Proof. exact history_refines. Qed.
 Print Assumptions C08_history_refines.
@@ -214,8 +215,8 @@ Print Assumptions C08_closure_replaced.
    C08-fmakunbound-orphaned-callers - a caller compiled earlier signals undefined-function while the name is
    unbound (was 1), a call compiled meanwhile and the earlier caller both follow the next definition ((2 2), was
    (1 2)), and the redefinition at once is seen by the old caller (2).  The correspondence compares every outcome
-   of every history with S; the THEOREMS (8), (9b) are still stated for histories without OFmak (`no_fmak`): the
-   invariant has no clause yet for a registered Lambda without a creator (left open). *)
+   of every history with S.  (8) and (9b) are stated for histories without OFmak (`no_fmak`); (12) at the end of this
+   file proves the refinement (8) for every history with OFmak, (12b) shows that the exactness (9b) does not extend. *)
 Theorem C08_fmakunbound_repaired :
   runM 50 minit fmak_ops1 = [(Val (VSym "h"), []); (Err EUndefined, [])] /\
   runS 50 sinit fmak_ops1 = [(Val (VSym "h"), []); (Err EUndefined, [])] /\
@@ -273,3 +274,36 @@ Print Assumptions C08_program_demo.
 Theorem C08_invariant_init : Inv init.
 Proof. exact Inv_init. Qed.
 Print Assumptions C08_invariant_init.
+
+(* (12) Histories WITH fmakunbound.  EVERY sequence of {read a code object, Code.Compile it, evaluate it,
+   (fmakunbound 'name)} - any definitions, redefinitions and un-definitions, in any order - gives, evaluation by
+   evaluation and compilation by compilation, S's outcome (equal where S is binding; never a value where S has none),
+   from the empty state.  No hypothesis on the history: this subsumes C08_history_refines (8), which is kept.  In
+   property terms: a caller compiled before a (fmakunbound 'f) signals undefined-function while f is unbound and
+   follows the next definition of f, exactly like the list form - for every program of the modelled language.
+   Proved over a weaker invariant (ProofsFmak.v, FM.Inv: a compiled call may hold the registered Lambda of a name
+   without a creator, which is then a placeholder). *)
+Theorem C08_history_refines_fmak : forall n ops, Forall2 osim (runS n sinit ops) (runM n minit ops).
+Proof. exact history_refines_fmak. Qed.
+Print Assumptions C08_history_refines_fmak.
+(* (12b) The EXACTNESS theorems (9b) C08_history_exact / C08_history_exact_exists do NOT extend to histories with
+   fmakunbound, and this is a fact about the per-name lookup-time oracle of runL, not a defect of slip: after
+   (fmakunbound 'h) a call of h compiled earlier evaluates its arguments before undefined-function is signalled,
+   a call of h still in list form signals at once (both allowed by CLHS 3.1.2.1.2.3), so the lookup time differs
+   between call sites of the SAME name.  Witness 1 ((defun h (x) 1); (h (emit 5)) compiled; fmakunbound; run): M
+   emits 5, runL under the lookup times read off M's state (h has no creator: early) emits nothing.  Witness 2
+   ((h (emit 1) (if t (h (emit 5) 0) 0)) compiled - the arguments of `if` stay list forms -; fmakunbound; run): M
+   emits 1 only; runL emits nothing or 1 and 5 under EVERY list of per-name policies.  `no_fmak` in (9b) excludes
+   both; what the undefined-function outcomes of such histories satisfy for all histories is (12): never a value,
+   and equal to S wherever S is binding. *)
+Theorem C08_history_exact_fmak_refuted :
+  runM 10 minit fx_ops1 = [(Val (VSym "h"), []); (Val VNil, []); (Err EUndefined, [VInt 5%Z])] /\
+  runL 10 sinit fx_ops1 (pols_run 10 minit fx_ops1) = [(Val (VSym "h"), []); (Val VNil, []); (Err EUndefined, [])] /\
+  ~ Forall2 oex (runL 10 sinit fx_ops1 (pols_run 10 minit fx_ops1)) (runM 10 minit fx_ops1).
+Proof. exact history_exact_fmak_refuted. Qed.
+Print Assumptions C08_history_exact_fmak_refuted.
+Theorem C08_history_exact_exists_fmak_refuted :
+  runM 10 minit fx_ops2 = [(Val (VSym "h"), []); (Val VNil, []); (Err EUndefined, [VInt 1%Z])] /\
+  forall pols, ~ Forall2 oex (runL 10 sinit fx_ops2 pols) (runM 10 minit fx_ops2).
+Proof. exact history_exact_exists_fmak_refuted. Qed.
+Print Assumptions C08_history_exact_exists_fmak_refuted.
